@@ -3,6 +3,7 @@ package rules
 import (
 	"fmt"
 	"go/token"
+	"go/types"
 	"strings"
 
 	"golang.org/x/tools/go/ssa"
@@ -130,6 +131,8 @@ func runC11(c *core.Ctx) {
 	runR112(c)
 	// ---- R11.3
 	parserReturnPairs(c, "R11.3")
+	c.Rule("R11.6", "no spin inside a parser: every uncounted loop of the request parsers that reads from the client stream is left when the read fails (a test for bufio.ErrBufferFull excepted)", 4)
+	checkParserLoopsLeaveOnError(c, "R11.6")
 	c.Rule("R11.5", "a request header is released to its pool by one owner only, on error paths too: otherwise one client's malformed or truncated input corrupts the header another connection is decoding", 2)
 	runR147(c, "R11.5", poolWrappers(c), "protocol")
 }
@@ -343,4 +346,105 @@ func calledAfterRead(fn *ssa.Function) bool {
 		})
 	}
 	return sites > 0 && ok
+}
+
+// checkParserLoopsLeaveOnError (R11.6): no spin inside a parser. Every loop of the request parsers that reads from the
+// client stream is left when that read fails: from the failure edge of the read the loop's head is not reachable again,
+// except through a test proving the error is bufio.ErrBufferFull (data was consumed, reading on makes progress). A
+// closed or broken connection returns the same error on every call, so a loop that tries again never ends.
+func checkParserLoopsLeaveOnError(c *core.Ctx, rule string) {
+	isStreamRead := func(call *ssa.Call) bool {
+		n := ssax.CalleeName(&call.Call)
+		switch {
+		case strings.HasPrefix(n, "(*bufio.Reader)."), n == "io.ReadFull", n == "io.ReadAtLeast", n == "io.Copy", n == "io.CopyN":
+			return true
+		}
+		if callee := call.Call.StaticCallee(); callee != nil && callee.Pkg != nil && strings.HasPrefix(callee.Pkg.Pkg.Path(), core.Mod+"/protocol") {
+			for _, p := range callee.Params {
+				t := types.TypeString(p.Type(), nil)
+				if t == "*bufio.Reader" || t == "io.Reader" || t == "*bufio.ReadWriter" {
+					return true
+				}
+			}
+		}
+		return false
+	}
+	n := 0
+	for _, rel := range parserPkgs {
+		for _, fn := range pkgFuncs(c, rel) {
+			loops := ssax.Loops(fn)
+			if len(loops) == 0 {
+				continue
+			}
+			counts := map[string]int{}
+			ssax.Instrs(fn, func(ins ssa.Instruction) {
+				call, ok := ins.(*ssa.Call)
+				if !ok || !isStreamRead(call) {
+					return
+				}
+				l := ssax.InnermostLoop(loops, call.Block())
+				if l == nil || countedLoop(l) {
+					return
+				}
+				e := errResult(call)
+				if e == nil {
+					return
+				}
+				n++
+				key := ordinalKey(counts, core.FuncName(fn)+"#loop-read:"+short(ssax.CalleeName(&call.Call)))
+				pos := c.P.Pos(call.Pos())
+				starts := failureStarts(e, fn)
+				tested := len(starts) > 0
+				if !tested {
+					// the error is not tested at all: the loop goes on whatever the read returned
+					if hit, _ := (ssax.Reach{Target: func(i ssa.Instruction) bool { return i.Block() == l.Header && ssax.IndexIn(i) == 0 }, Within: l.Blocks}).From(call); hit != nil {
+						c.Violate(rule, key, pos, "the error of "+short(ssax.CalleeName(&call.Call))+" is not tested and the loop goes round again: on a closed connection the parser spins")
+					} else {
+						c.OK(rule, key, pos, "the loop is not re-entered after this read")
+					}
+					return
+				}
+				bad := ""
+				for _, s := range starts {
+					if !l.Blocks[s] {
+						continue
+					}
+					hit, trail := (ssax.Reach{
+						Target: func(i ssa.Instruction) bool { return i.Block() == l.Header && ssax.IndexIn(i) == 0 },
+						Within: l.Blocks,
+						AvoidEdge: func(from, to *ssa.BasicBlock) bool {
+							ifi, ok := from.Instrs[len(from.Instrs)-1].(*ssa.If)
+							if !ok {
+								return false
+							}
+							bo, ok := ifi.Cond.(*ssa.BinOp)
+							if !ok || (bo.Op != token.EQL && bo.Op != token.NEQ) {
+								return false
+							}
+							full := false
+							for _, side := range []ssa.Value{bo.X, bo.Y} {
+								if g := ssax.GlobalLoad(side); g != nil && g.Pkg != nil && g.Pkg.Pkg.Path() == "bufio" && g.Name() == "ErrBufferFull" {
+									full = true
+								}
+							}
+							if !full {
+								return false
+							}
+							return (bo.Op == token.EQL && to == from.Succs[0]) || (bo.Op == token.NEQ && to == from.Succs[1])
+						},
+					}).FromBlock(s)
+					if s == l.Header {
+						hit = s.Instrs[0]
+					}
+					if hit != nil {
+						bad = "after " + short(ssax.CalleeName(&call.Call)) + " failed the loop is entered again (" + strings.Join(ssax.BlockTrail(c.P.Fset, trail), " -> ") + "): a closed or broken client connection fails the same way on every call, so the parser spins and the connection is never closed"
+					}
+				}
+				c.Check(bad == "", rule, key, pos, "a failed read leaves the loop", bad)
+			})
+		}
+	}
+	if n == 0 {
+		c.Info(rule, "parsers#loop-reads", "-", "no uncounted loop of the parsers reads from the client stream")
+	}
 }
